@@ -1,8 +1,8 @@
 SPECIFICATION Spec
 CONSTANTS
-  Fams = {"single", "disjoint", "adjacent", "stacked", "overlap", "nested", "lshape", "para", "curved", "cross4", "corner", "mixed4"}
-  MaxRoutes = 3
-  PerClass = 4
+  Fams = {"single", "disjoint", "adjacent"}
+  MaxRoutes = 2
+  PerClass = 2
   DEV_RemoveNoRebuild = FALSE
   DEV_MoveNoRebuild = FALSE
   DEV_CopyMisMaps = FALSE
